@@ -14,7 +14,11 @@ import (
 )
 
 func (k Keeper) BurnValidator(ctx sdk.Ctx, address sdk.Address, severityPercentage sdk.Dec) {
-	curBurn, _ := k.getValidatorBurn(ctx, address)
+	curBurn, found := k.getValidatorBurn(ctx, address)
+	if !found {
+		// nothing queued yet for this validator
+		curBurn = sdk.ZeroDec()
+	}
 	newSeverity := curBurn.Add(severityPercentage)
 	k.setValidatorBurn(ctx, newSeverity, address)
 }
